@@ -279,3 +279,10 @@ def builtin_arg_type_mismatch(prog):
 
 
 ALL["builtin_arg_type_mismatch"] = builtin_arg_type_mismatch
+
+
+def array_push_used(prog):
+    return any(e and e[0] == "bi" and e[1] in ("array_push", "array_set", "array_pop") for e in prog_exprs(prog))
+
+
+ALL["array_push_used"] = array_push_used
